@@ -224,6 +224,19 @@ def native_harness(tier, seed):
                         if not np.allclose(np.asarray(m)[:, 1], np.asarray(x).reshape(-1), atol=1e-9, equal_nan=True):
                             fails.append('%s: window 1 differs from %s on that window' % (fw.__name__, plain.__name__))
                             break
+        # integer-typed (PCM) input: same scores as the same values given as floats, components still sum to the estimate
+        Ti = 1300
+        refi = (rs.randn(2, Ti) * 3000).astype(np.int16)
+        refi[0, 5] = -32768
+        esti = (refi[::-1].astype(float) * 0.9 + rs.randn(2, Ti) * 200).astype(np.int16)
+        a_i = S.bss_eval_sources(refi, esti)
+        a_f = S.bss_eval_sources(refi.astype(float), esti.astype(float))
+        n += 1
+        if not all(np.allclose(np.asarray(x_), np.asarray(y_), atol=1e-6) for x_, y_ in zip(a_i, a_f)):
+            fails.append('bss_eval_sources on int16 input differs from the same values as floats: SDR %s vs %s' % (np.asarray(a_i[0]).tolist(), np.asarray(a_f[0]).tolist()))
+        parts_i = S._bss_decomp_mtifilt(refi, esti[0], 0, 512)
+        if not np.allclose(sum(parts_i)[:Ti], esti[0], atol=1e-6):
+            fails.append('_bss_decomp_mtifilt components do not sum to the estimate for int16 input')
         # fewer than two windows (window longer than the signal): the framewise variants return the non-framewise result with the SAME
         # compute_permutation setting, also when the estimates are in swapped order
         T2 = 1400
